@@ -69,6 +69,7 @@ package utils
 //@ ensures digits: forall(j, 0, n, nafdigit(out[j], w))
 //@ ensures spacing: forall(j, 0, n, out[j] != 0 ==> forall(t, j + 1, j + w + 1, t < n ==> out[t] == 0))
 //@ ensures sum: nafstd(s, n) ==> nsum(out, 0, n) == be(s)
+//@ assigns out[0:n]
 //@ after carry := false :: unfold base: vm(be(s), p2(0)) == 0
 //@ after carry := false :: unfold p0: p2(0) == 1
 //@ after carry := false :: trust zero: nsum_zero(arr(out), off(out), n)
@@ -86,6 +87,7 @@ package utils
 //@ loop 1
 //@ invariant idx: 0 <= outIdx && outIdx <= n + 7
 //@ invariant zero: forall(j, outIdx, n, out[j] == 0)
+//@ invariant frame: forallInt(j, (j < off(out) || j >= off(out) + n) ==> arr(out)[j] == old(arr(out))[j])
 //@ invariant digits: forall(j, 0, n, nafdigit(out[j], w))
 //@ invariant space: forall(j, 0, n, out[j] != 0 ==> j + w < outIdx)
 //@ invariant spacing: forall(j, 0, n, out[j] != 0 ==> forall(t, j + 1, j + w + 1, t < n ==> out[t] == 0))
